@@ -258,6 +258,7 @@ func findNextNodeAfterComment(file *ast.File, commentPos token.Pos) token.Pos {
 
 	// Comment is inside this declaration - find the next node after comment
 	var nextPos = token.NoPos
+	var nextEnd = token.NoPos
 
 	ast.Inspect(decl, func(n ast.Node) bool {
 		if n == nil {
@@ -272,6 +273,7 @@ func findNextNodeAfterComment(file *ast.File, commentPos token.Pos) token.Pos {
 		// Found a node after comment
 		if nextPos == token.NoPos || n.Pos() < nextPos {
 			nextPos = n.Pos()
+			nextEnd = n.End()
 			// Stop searching once we found the first node
 			return false
 		}
@@ -279,5 +281,6 @@ func findNextNodeAfterComment(file *ast.File, commentPos token.Pos) token.Pos {
 		return true
 	})
 
-	return nextPos
+	// The scope covers the whole following node, not just its first byte
+	return nextEnd
 }
